@@ -78,6 +78,18 @@ pub fn panic_message(p: &Box<dyn Any + Send>) -> String {
     }
 }
 
+thread_local! {
+    /// Panics observed on this thread since the last `take_panics` (message,
+    /// location). Panics inside tokio tasks are swallowed by the runtime, so
+    /// this is the only place they surface.
+    static PANICS: std::cell::RefCell<Vec<String>> = const { std::cell::RefCell::new(Vec::new()) };
+}
+
+/// Returns and clears the panics recorded on this thread.
+pub fn take_panics() -> Vec<String> {
+    PANICS.with(|p| std::mem::take(&mut *p.borrow_mut()))
+}
+
 /// Installs a panic hook that stays silent for panics raised inside runs
 /// (they are caught and classified) but still prints harness failures.
 pub fn install_quiet_panic_hook() {
@@ -91,6 +103,14 @@ pub fn install_quiet_panic_hook() {
         };
         if msg.starts_with(HARNESS_PANIC) {
             eprintln!("harness failure: {} at {:?}", msg, info.location());
+        } else {
+            let loc = info.location().map(|l| format!("{}:{}", l.file(), l.line())).unwrap_or_default();
+            PANICS.with(|p| {
+                let mut p = p.borrow_mut();
+                if p.len() < 16 {
+                    p.push(format!("{} at {}", msg, loc));
+                }
+            });
         }
     }));
 }
